@@ -120,6 +120,7 @@ Fixpoint rd (e : env) (p : place) : option val :=
   | PSlice p lo len =>
       match rd e p with
       | Some (VBlk b) => if fits lo len (length b) then Some (VBlk (firstn len (skipn lo b))) else None
+      | Some (VBlks l) => if fits lo len (length l) then Some (VBlks (firstn len (skipn lo l))) else None
       | _ => None
       end
   | POut p =>
@@ -177,6 +178,8 @@ Fixpoint wr (e : env) (p : place) (v : val) : option env :=
       match rd e p, v with
       | Some (VBlk b), VBlk s =>
           if fits lo len (length b) && len_eq (length s) len then wr e p (VBlk (splice lo len s b)) else None
+      | Some (VBlks l), VBlks s =>
+          if fits lo len (length l) && len_eq (length s) len then wr e p (VBlks (firstn lo l ++ s ++ skipn (lo + len) l)) else None
       | _, _ => None
       end
   | POut p =>
@@ -362,6 +365,14 @@ Definition data_method (C : ctx) (recv : val) (m : string) (args : list val) : o
       else if (m =s "to_le_bytes") || (m =s "to_ne_bytes") then Some (VBlk (le_encode (w / 8) x))   (* little-endian host *)
       else if m =s "ok" then Some (VOpt (match to_usize x with Some y => Some (VInt 64 y) | None => None end))
       else None
+  | VNat x, [y] =>
+      match to_nat y with
+      | Some y =>
+          if m =s "div_ceil" then (if in_range 0 y then Some (VNat (ndiv (x + y - 1) y)) else None)
+          else if m =s "saturating_sub" then Some (VNat (x - y))
+          else None
+      | None => None
+      end
   | VInt w x, [y] =>
       match int_arg w y with
       | Some y =>
@@ -458,6 +469,14 @@ Definition arg_name (k : nat) : string :=
 
 Definition pop_to (n : nat) (e : env) : env := edrop (psub (elen e) n) e.
 
+(* the value a `let` binds: the data (a copy), except that `let x = y.get_out();` binds the reference get_out returns *)
+Definition let_val (e : env) (p : pat) (i : expr) (r : res) : option val :=
+  let dflt := match p with PStruct _ _ _ => as_data e r | _ => as_val e r end in
+  match i, r with
+  | EMethod _ mn [], RP q => if mn =s "get_out" then Some (VRef (resolve e q)) else dflt
+  | _, _ => dflt
+  end.
+
 Section Interp.
   Variable C : ctx.
 
@@ -479,7 +498,7 @@ Section Interp.
         | SItem _ => continue e (RV VUnit) true
         | SLet p _ (Some i) =>
             bindF (ev e i) (fun e r =>
-              match (match p with PStruct _ _ _ => as_data e r | _ => as_val e r end) with
+              match let_val e p i r with
               | Some v => match bind_pat p v e with Some e' => continue e' (RV VUnit) true | None => None end
               | None => None
               end)
@@ -877,6 +896,17 @@ Section Interp.
                     | Some p, [] =>
                         match rd e p with
                         | Some (VBlks l) => if in_range 0 (length l) then Some (Norm e (RV (VRef (PIdx p (length l - 1))))) else None
+                        | _ => None
+                        end
+                    | _, _ => None
+                    end
+                  else if m =s "split_last_mut" then             (* (last, rest) of a slice of blocks, always followed by unwrap *)
+                    match as_place e r, rs with
+                    | Some p, [] =>
+                        match rd e p with
+                        | Some (VBlks l) =>
+                            if in_range 0 (length l)
+                            then Some (Norm e (RV (VTuple [VRef (PIdx p (length l - 1)); VRef (PSlice p 0 (length l - 1))]))) else None
                         | _ => None
                         end
                     | _, _ => None
